@@ -216,6 +216,11 @@ def curated() -> List[Dict[str, Any]]:
     # type changes across context-only nodes; subclass passes the gate
     T.append(_t("c.type-change-ctx-only", INT, [("a", "v1", "f0")], [("comp", "OpToOther", []), ("delete", "a"), ("comp", "OpAddDef", [])]))
     T.append(_t("c.subclass-ok", INT, [], [("comp", "OpSub", []), ("comp", "CpSum", [("a", "v1", None)]), ("comp", "OpAddDef", [])]))
+    # the subclass is lost when an operation declared on the base type sits in between (also across a context-only node)
+    T.append(_t("c.sub-decl-chain", INT, [], [("comp", "OpSubDecl", []), ("comp", "OpNeedSub", []), ("comp", "OpAddDef", [])]))
+    T.append(_t("c.sub-lost-through-base-op", INT, [("addend", "v1", "f0")], [("comp", "OpSubDecl", []), ("comp", "OpAddDef", []), ("comp", "OpNeedSub", [])]))
+    T.append(_t("c.sub-lost-ctx-only", INT, [("a", "v1", "f0")], [("comp", "OpSubDecl", []), ("comp", "OpAddDef", []), ("delete", "a"), ("comp", "OpNeedSub", [])]))
+    T.append(_t("c.sub-kept-ctx-only", INT, [("a", "v1", "f0")], [("comp", "OpSubDecl", []), ("delete", "a"), ("comp", "OpNeedSub", [])]))
     # payload source colliding with the initial context; source then ops then sink
     T.append(_t("c.psrc-chain", NONE, [("a", "v1", "f0"), ("value", "v2", "f1")], [("comp", "PSrc", [("value", "v3", "f2")]), ("comp", "OpTwo", []), ("comp", "Snk", [])]))
     T.append(_t("c.src-template-sink", NONE, [("b", "s0", "f0"), ("d", "s1", "f1")], [("comp", "SrcD", []), ("comp", "PrVal", [], "a"), ("rename", "d", "a"), ("template", ["a", "b"], "c"), ("comp", "PSnk", [])]))
